@@ -18,6 +18,7 @@ def run(ctx):
     accept.rule_stable_unsat(ctx, 'extension')
     provenance.rule_argument_provenance(ctx)
     provenance.rule_ownership(ctx)
+    provenance.rule_encoded_framework_is_searched(ctx, 'extension')
     from . import cli
     cli.rule_dispatch(ctx, 'extension')
     provenance.rule_fresh_solver_per_encoding(ctx, 'extension')
